@@ -157,9 +157,14 @@ def h_rewrites(ctx, prefix, length):
 
 def cases(tier):
     out = []
-    L = 3 if tier == "quick" else 4
-    for first in MENU:
-        out.append(dict(prefix=[first], length=L))
+    if tier == "quick":
+        for first in MENU:
+            out.append(dict(prefix=[first], length=3))
+    else:
+        # length 4, the first two components fixed per case (better parallelism)
+        for a in MENU:
+            for b in MENU:
+                out.append(dict(prefix=[a, b], length=4))
     # swap-heavy: two ModeSwaps separated by every kind of intermediate component
     for mid in MENU:
         out.append(dict(prefix=["swap_a", mid, "swap_b"], length=3 if tier == "quick" else 4))
@@ -173,4 +178,4 @@ def xh_conditions(tier):
 
 
 def harnesses(tier):
-    return [("rewrites", h_rewrites, cases(tier), dict(max_paths=20000))]
+    return [("rewrites", h_rewrites, cases(tier), dict(max_paths=20000, max_seconds=1800))]
